@@ -2,12 +2,16 @@
    the model): widths below 2 act as 2; Wrap is total; and no line of the wrapped block is
    wider than the clamped width whenever the space-collapsed text consists of safe clusters
    (none starts with an extending character or ends in a Prepend character - the
-   degenerate-seam class D11 is exactly what this excludes). Spacing, greediness and
-   idempotence are judged on every generated case by the executable checker check_C06 and
-   the wrap-twice cases; their general proofs are not in the development yet. *)
+   degenerate-seam class D11 is exactly what this excludes); and, under the same condition,
+   C06_structure: every line is its pieces (words or hyphen-ended chunks of an over-long
+   word) joined by single U+0020, no piece is empty or holds a space cluster - so no line is
+   empty or starts or ends with a space - and breaking is greedy: a line that is not full is
+   followed by a piece that would not have fitted on it. Hyphenation only of over-long words,
+   idempotence and the trailing separator are judged on every generated case by the
+   executable checker check_C06 and the wrap-twice cases. *)
 From Coq Require Import List Bool ZArith Lia.
 Import ListNotations.
-From Rosed Require Import Base.Res Base.ListX Gem.Segment Gem.GString Model.Tb Model.Manip Model.Table Proofs.SeamP Proofs.C13P Proofs.C06P Proofs.C06Q.
+From Rosed Require Import Base.Res Base.ListX Gem.Segment Gem.GString Model.Tb Model.Manip Model.Table Base.Str Proofs.SeamP Proofs.C13P Proofs.C06P Proofs.C06Q Proofs.C06R.
 Open Scope Z_scope.
 
 Theorem C06_clamp : forall (C : Classifier) text w sep, wrap text w sep = wrap text (Z.max w 2) sep.
@@ -30,3 +34,13 @@ Theorem C06_width : forall (C : Classifier) (K : ClassifierOk) (U : Upper) text 
   Forall (fun l => glen l <= Z.max w 2) (b_lines b).
 Proof. intros C K U. exact wrap_width. Qed.
 Print Assumptions C06_width.
+
+(* the structure of the wrapped lines (W = max(w,2)):
+     ln ps          = the pieces ps joined by single U+0020
+     lp_ok W ps     = ps is not empty, every piece is non-empty, safe and free of space clusters, and ln ps has at most W clusters
+     chain W pss    = for consecutive lines ps, ps': ln ps is full (W clusters) or W < |ln ps| + 1 + |first piece of ps'| *)
+Theorem C06_structure : forall (C : Classifier) (K : ClassifierOk) (U : Upper) text w sep ct b,
+  collapse_space text sep = Ok ct -> all_safe ct -> ct <> [] -> wrap text w sep = Ok b ->
+  exists pss, b_lines b = map ln pss /\ Forall (lp_ok (Z.max w 2)) pss /\ chain (Z.max w 2) pss.
+Proof. intros C K U. exact wrap_structure. Qed.
+Print Assumptions C06_structure.
